@@ -210,7 +210,13 @@ func newC09Pair(bufCap int, rewriteMsize uint32) (*c09pair, error) {
 		conn, sconn = c, s
 		p.closers = []io.Closer{c, s}
 	}
-	go func() { p9p.ServeConn(ctx, sconn, p9p.SSession(p.S)); close(p.srvDone) }()
+	go func() {
+		p9p.ServeConn(ctx, sconn, p9p.SSession(p.S))
+		// like any server: the connection is closed when serving ends (so that a client whose
+		// handshake missed ServeConn's real 1 s negotiation timeout on a loaded machine sees EOF)
+		sconn.Close()
+		close(p.srvDone)
+	}()
 	var err error
 	if rewriteMsize != 0 {
 		tap := wire.NewTap(conn)
